@@ -7,6 +7,7 @@ import (
 	"io"
 	"regexp"
 	"strconv"
+	"unicode"
 	"unicode/utf8"
 )
 
@@ -128,6 +129,7 @@ const (
 	LexerBuiltinOperator
 	LexerRuneLit
 	LexerRuneEscaped
+	LexerHexEscape // inside \xHH, \uHHHH or \UHHHHHHHH of a string or rune literal
 )
 
 type Lexer struct {
@@ -146,6 +148,13 @@ type Lexer struct {
 
 	priori    int
 	priorRune [20]rune
+
+	// pending \x / \u / \U escape: digits still needed, digits
+	// seen, and the state to return to (string or rune literal).
+	hexNeed   int
+	hexKind   rune
+	hexDigits []byte
+	hexReturn LexerState
 }
 
 func (lexer *Lexer) AppendToken(tok Token) {
@@ -216,7 +225,7 @@ func (lex *Lexer) Reset() {
 // token that needs an explicit terminator.
 func (lex *Lexer) midToken() bool {
 	switch lex.state {
-	case LexerStrLit, LexerStrEscaped, LexerBacktickString, LexerRuneLit, LexerRuneEscaped:
+	case LexerStrLit, LexerStrEscaped, LexerBacktickString, LexerRuneLit, LexerRuneEscaped, LexerHexEscape:
 		return true
 	}
 	return false
@@ -305,8 +314,64 @@ func EscapeChar(char rune) (rune, error) {
 		return '\'', nil
 	case '#':
 		return '#', nil
+	// the printer (strconv.Quote / QuoteRune) also emits these:
+	case 'b':
+		return '\b', nil
+	case 'f':
+		return '\f', nil
+	case 'v':
+		return '\v', nil
 	}
 	return ' ', errors.New("invalid escape sequence")
+}
+
+// startHexEscape recognizes the numeric escapes the printer emits for
+// characters it cannot show literally: \xHH, \uHHHH and \UHHHHHHHH.
+// Without them a string or character holding a control character, DEL or a
+// non-printable rune printed to text that the reader rejected.
+func (lexer *Lexer) startHexEscape(r rune, back LexerState) bool {
+	switch r {
+	case 'x':
+		lexer.hexNeed = 2
+	case 'u':
+		lexer.hexNeed = 4
+	case 'U':
+		lexer.hexNeed = 8
+	default:
+		return false
+	}
+	lexer.hexKind = r
+	lexer.hexDigits = lexer.hexDigits[:0]
+	lexer.hexReturn = back
+	lexer.state = LexerHexEscape
+	return true
+}
+
+func (lexer *Lexer) continueHexEscape(r rune) error {
+	isHex := (r >= '0' && r <= '9') || (r >= 'a' && r <= 'f') || (r >= 'A' && r <= 'F')
+	if !isHex {
+		lexer.state = lexer.hexReturn
+		return errors.New("invalid escape sequence: hex digit expected")
+	}
+	lexer.hexDigits = append(lexer.hexDigits, byte(r))
+	if len(lexer.hexDigits) < lexer.hexNeed {
+		return nil
+	}
+	v, err := strconv.ParseUint(string(lexer.hexDigits), 16, 32)
+	lexer.state = lexer.hexReturn
+	if err != nil {
+		return err
+	}
+	if lexer.hexKind == 'x' && v >= 0x80 && lexer.hexReturn == LexerStrLit {
+		// \xHH denotes one byte, as in Go
+		lexer.buffer.WriteByte(byte(v))
+		return nil
+	}
+	if v > unicode.MaxRune || (v >= 0xd800 && v <= 0xdfff) {
+		return errors.New("invalid escape sequence: not a valid code point")
+	}
+	lexer.buffer.WriteRune(rune(v))
+	return nil
 }
 
 func DecodeChar(atom string) (string, error) {
@@ -563,6 +628,9 @@ top:
 		return nil
 
 	case LexerStrEscaped:
+		if lexer.startHexEscape(r, LexerStrLit) {
+			return nil
+		}
 		char, err := EscapeChar(r)
 		if err != nil {
 			return err
@@ -570,6 +638,9 @@ top:
 		lexer.buffer.WriteRune(char)
 		lexer.state = LexerStrLit
 		return nil
+
+	case LexerHexEscape:
+		return lexer.continueHexEscape(r)
 
 	case LexerRuneLit:
 		if r == '\\' {
@@ -587,6 +658,9 @@ top:
 		return nil
 
 	case LexerRuneEscaped:
+		if lexer.startHexEscape(r, LexerRuneLit) {
+			return nil
+		}
 		char, err := EscapeChar(r)
 		if err != nil {
 			return err
